@@ -28,6 +28,99 @@ def _writes(fnode, name):
   return sorted(out, key=lambda x: x.lineno)
 
 
+def _full_view(repo):
+  """_fit_full under canonical role names, discovered from definitions and
+  uses: A_old = what is stored into self.A_; A = what A_old copies; w_norm =
+  norm(w); w1 = w / w_norm; t1 = t / w_norm; x0 = A.ravel() in the loop;
+  x = the projected point; (l, V) = eigh(...); fDC2 = w.dot(A.ravel()) in the
+  loop; error2 = the relative violation built from fDC2 and t; eps = what
+  error2 is compared with; satisfy = the flag set True right before the
+  break of the projection loop."""
+  f0 = repo.get_func('mmc._BaseMMC._fit_full')
+  roles = {}
+  names = lambda e: [x.id for x in ast.walk(e) if isinstance(x, ast.Name)]
+  fin = [n for n in ast.walk(f0.node) if isinstance(n, ast.Assign) and
+         ast.unparse(n.targets[0]) in ('self.A_[:]', 'self.A_') and
+         isinstance(n.value, ast.Name)]
+  if fin:
+    roles[fin[-1].value.id] = 'A_old'
+  old = next((k for k, v in roles.items() if v == 'A_old'), None)
+  for n in ast.walk(f0.node):
+    if isinstance(n, ast.Assign) and isinstance(n.targets[0], ast.Name):
+      t_, v_ = n.targets[0].id, n.value
+      if t_ == old and isinstance(v_, ast.Call) and \
+              isinstance(v_.func, ast.Attribute) and v_.func.attr == 'copy' \
+              and isinstance(v_.func.value, ast.Name):
+        roles[v_.func.value.id] = 'A'
+  An = next((k for k, v in roles.items() if v == 'A'), None)
+  for n in ast.walk(f0.node):
+    if isinstance(n, ast.Assign) and isinstance(n.targets[0], ast.Name):
+      t_, v_ = n.targets[0].id, n.value
+      if isinstance(v_, ast.Call) and (repo.dotted(f0.module, v_.func) or
+                                       '').endswith('linalg.norm') and \
+              len(v_.args) == 1 and isinstance(v_.args[0], ast.Name):
+        roles[t_] = 'w_norm'
+        roles[v_.args[0].id] = 'w'
+  wn = next((k for k, v in roles.items() if v == 'w_norm'), None)
+  wv = next((k for k, v in roles.items() if v == 'w'), None)
+  for n in ast.walk(f0.node):
+    if isinstance(n, ast.Assign) and isinstance(n.targets[0], ast.Name) and \
+            isinstance(n.value, ast.BinOp) and \
+            isinstance(n.value.op, ast.Div) and \
+            isinstance(n.value.left, ast.Name) and \
+            isinstance(n.value.right, ast.Name) and n.value.right.id == wn:
+      if n.value.left.id == wv:
+        roles[n.targets[0].id] = 'w1'
+      else:
+        roles[n.targets[0].id] = 't1'
+        roles[n.value.left.id] = 't'
+  tn = next((k for k, v in roles.items() if v == 't'), None)
+  loops = [n for n in ast.walk(f0.node) if isinstance(n, ast.For)]
+  for n in ast.walk(f0.node):
+    if isinstance(n, ast.Assign) and isinstance(n.targets[0], ast.Tuple) and \
+            isinstance(n.value, ast.Call) and \
+            (repo.dotted(f0.module, n.value.func) or '').endswith(
+                'linalg.eigh') and len(n.targets[0].elts) == 2 and \
+            all(isinstance(e, ast.Name) for e in n.targets[0].elts):
+      roles[n.targets[0].elts[0].id] = 'l'
+      roles[n.targets[0].elts[1].id] = 'V'
+  for lp in loops:
+    for s_ in lp.body:
+      if isinstance(s_, ast.Assign) and isinstance(s_.targets[0], ast.Name):
+        txt = ast.unparse(s_.value)
+        if An and txt == '%s.ravel()' % An:
+          roles[s_.targets[0].id] = 'x0'
+        elif An and wv and txt in ('%s.dot(%s.ravel())' % (wv, An),
+                                   'np.dot(%s, %s.ravel())' % (wv, An)):
+          roles[s_.targets[0].id] = 'fDC2'
+  fd = next((k for k, v in roles.items() if v == 'fDC2'), None)
+  x0 = next((k for k, v in roles.items() if v == 'x0'), None)
+  for n in ast.walk(f0.node):
+    if isinstance(n, ast.Assign) and isinstance(n.targets[0], ast.Name):
+      nm = names(n.value)
+      if fd and tn and fd in nm and tn in nm:
+        roles[n.targets[0].id] = 'error2'
+      if x0 and n.targets[0].id != x0 and (
+              ast.unparse(n.value) == x0 or
+              (isinstance(n.value, ast.BinOp) and x0 in nm and
+               n.targets[0].id not in roles)):
+        roles.setdefault(n.targets[0].id, 'x')
+  er = next((k for k, v in roles.items() if v == 'error2'), None)
+  for n in ast.walk(f0.node):
+    if isinstance(n, ast.If) and isinstance(n.test, ast.Compare) and \
+            isinstance(n.test.left, ast.Name) and n.test.left.id == er and \
+            isinstance(n.test.comparators[0], ast.Name):
+      roles[n.test.comparators[0].id] = 'eps'
+      for i_, s_ in enumerate(n.body):
+        if isinstance(s_, ast.Assign) and \
+                isinstance(s_.targets[0], ast.Name) and \
+                isinstance(s_.value, ast.Constant) and \
+                s_.value.value is True and i_ + 1 < len(n.body) and \
+                isinstance(n.body[i_ + 1], ast.Break):
+          roles[s_.targets[0].id] = 'satisfy'
+  return f0, astutil.role_view(f0, roles), roles
+
+
 def rule_full(repo, rep):
   R = 'R-DOM:mmc-returns-projected-feasible-iterate'
   rep.rule(R, 'self.A_[:] = A_old; A_old is written only as a copy of the '
@@ -35,8 +128,12 @@ def rule_full(repo, rep):
            'satisfy = True only under error2 < eps directly after the PSD '
            'clip V Diag(max(0, l)) V^T of eigh((A + A^T)/2), with no write '
            'to A in between')
-  f = repo.get_func('mmc._BaseMMC._fit_full')
-  rep.analysed(f)
+  f0, f, roles_ = _full_view(repo)
+  rep.analysed(f0)
+  if f is None:
+    rep.unknown(R, 'mmc._BaseMMC._fit_full', site(f0), 'roles %s cannot be '
+                'given canonical names' % roles_)
+    return
   fin = [n for n in ast.walk(f.node) if isinstance(n, ast.Assign) and
          ast.unparse(n.targets[0]) in ('self.A_[:]', 'self.A_')]
   if not fin or not isinstance(fin[-1].value, ast.Name):
@@ -151,7 +248,11 @@ def rule_projection_formula(repo, rep):
            'x0 + (t1 - w1.x0) w1 otherwise, with w1 = w / |w|, t1 = t / |w|; '
            'the relative violation is (w.A - t) / t')
   from ..ratfunc import Rat, LinM, eval_expr
-  f = repo.get_func('mmc._BaseMMC._fit_full')
+  f0, f, roles_ = _full_view(repo)
+  if f is None:
+    rep.unknown(R, 'mmc._BaseMMC._fit_full', site(f0), 'roles %s cannot be '
+                'given canonical names' % roles_)
+    return
   defs = {}
   for n in ast.walk(f.node):
     if isinstance(n, ast.Assign) and isinstance(n.targets[0], ast.Name):
@@ -215,7 +316,11 @@ def rule_init_flow(repo, rep):
            'self.init, ...); the budget t is computed from that A (one '
            'hundredth of w.A) before any update of A')
   f0 = repo.get_func('mmc._BaseMMC._fit')
-  f = repo.get_func('mmc._BaseMMC._fit_full')
+  _f0, f, roles_ = _full_view(repo)
+  if f is None:
+    rep.unknown(R, 'mmc._BaseMMC._fit_full', site(_f0), 'roles %s cannot be '
+                'given canonical names' % roles_)
+    return
   rep.analysed(f0)
   ini = [n for n in ast.walk(f0.node) if isinstance(n, ast.Assign) and
          ast.unparse(n.targets[0]) == 'self.A_']
@@ -290,8 +395,21 @@ def rule_diag(repo, rep):
   Rn = 'R-DOM:mmc-diagonal-nan-guard'
   rep.rule(Rn, 'every evaluation of the objective is followed by '
            'assert_all_finite(obj) before obj is compared or stored')
-  f = repo.get_func('mmc._BaseMMC._fit_diag')
-  rep.analysed(f)
+  fd0 = repo.get_func('mmc._BaseMMC._fit_diag')
+  rep.analysed(fd0)
+  # role: obj = the local holding the objective (built from _D_objective)
+  droles = {}
+  for n in ast.walk(fd0.node):
+    if isinstance(n, ast.Assign) and isinstance(n.targets[0], ast.Name) and \
+            any(isinstance(c_, ast.Call) and
+                ast.unparse(c_.func) == 'self._D_objective'
+                for c_ in ast.walk(n.value)):
+      droles[n.targets[0].id] = 'obj'
+  f = astutil.role_view(fd0, droles)
+  if f is None:
+    rep.unknown(R, 'mmc._BaseMMC._fit_diag', site(fd0), 'roles %s cannot be '
+                'given canonical names' % droles)
+    return
   fin = [n for n in ast.walk(f.node) if isinstance(n, ast.Assign) and
          ast.unparse(n.targets[0]) == 'self.A_']
   if not fin or not (isinstance(fin[-1].value, ast.Call) and
